@@ -33,8 +33,8 @@ type c03op struct {
 
 type c03prog struct {
 	Name     string    `json:"name"`
-	PreOpen  bool      `json:"preopen"` // file opened before the schedule starts
-	PreFill  int       `json:"prefill"` // big records written before the schedule starts (so that growth is near)
+	PreOpen  bool      `json:"preopen"`  // file opened before the schedule starts
+	PreFill  int       `json:"prefill"`  // big records written before the schedule starts (so that growth is near)
 	PreTouch []int     `json:"pretouch"` // counters incremented once before the schedule (they hold a pointer)
 	NCtr     int       `json:"nctr"`
 	Threads  [][]c03op `json:"threads"`
@@ -69,10 +69,10 @@ type c03env struct {
 	// cause classification (see DESIGN.md, findings F1 and F11): which
 	// counters had a reader/lock holder, or were only half registered, while a
 	// mapping swap (store of the new mapping .. unmap of the old one) was in progress
-	window    map[int]bool // thread ids with a swap in progress
-	heldSwap  map[int]bool
-	halfSwap  map[int]bool
-	curThread int
+	window        map[int]bool // thread ids with a swap in progress
+	heldSwap      map[int]bool
+	halfSwap      map[int]bool
+	curThread     int
 	opStartUnmaps map[int]int // per thread: regions already unmapped when its current operation began
 }
 
